@@ -183,5 +183,9 @@ func isExternalPure(name string) bool {
 	if strings.HasPrefix(name, "math.") || strings.HasPrefix(name, "math/bits.") {
 		return true
 	}
+	switch name {
+	case "slices.Backward", "slices.All", "slices.Values", "slices.Index", "slices.Contains", "slices.Equal", "bytes.IndexByte", "bytes.Index", "bytes.Contains", "bytes.HasSuffix", "bytes.TrimSuffix", "bytes.TrimPrefix":
+		return true // read their arguments only (the iterators they return write nothing either)
+	}
 	return false
 }
